@@ -36,8 +36,8 @@ def rules_for(prop):
         "C15": [io.rule_framing],
         "C16": [io.rule_compression],
         "C17": [io.rule_codec],
-        "C18": [cont.rule_csv_tables, cont.rule_dp7],
-        "C19": [cont.rule_ag7],
+        "C18": [cont.rule_csv_tables, cont.rule_csv_merge, cont.rule_dp7],
+        "C19": [cont.rule_ag7, io.rule_framing, io.rule_codec, io.rule_compression],
         "C20": [cont.rule_pu2, seq.rule_dp6],
         "C06": [named(grp.rule_eq1, files=("rxsci/data/split.py",), min_instances=7), named(grp.rule_fw1, heads=("split",)), grp.rule_dp4,
                 named(lv.rule_lv, only=("split_mux._split.on_subscribe",))],
@@ -110,9 +110,10 @@ EXPLANATION = {
            "it; final=True flush emitted before completion; defaults incremental=True; json.py does not override them.",
     "C18": _COMMON + "Decided clauses (narrow): the unescape pairs of parse_line are the inverses of dump's escape pairs; defaults of "
            "separator/escapechar agree and reach join/split; type table (None <-> '', bool <-> 'True'); DP-7 the float parser is not a "
-           "separable sum f(int part) + g(fraction part). Not decided: fields ending with the escape character (known to fail at run time).",
+           "separable sum f(int part) + g(fraction part); CS-2 the quoted-field merger consumes every split piece exactly once. Not decided: fields ending with the escape character (known to fail at run time).",
     "C19": _COMMON + "Decided clause: AG-7 for each compression setting the stage list of load_from_file(lines=True) is the reversed "
-           "stage list of dump_to_file through the inverse table; compression tables, modes, encoding and newline defaults agree.",
+           "stage list of dump_to_file through the inverse table; compression tables, modes, encoding and newline defaults agree; plus the stage rules of C15 (line framing), C16 (codecs) and C17 (text codec) "
+           "for the stages the pipeline is composed of.",
     "C20": _COMMON + "Decided clauses: PU-2 the record builder carries no mutable free state into its result; stage order batch -> "
            "to_record -> writer with batch_size forwarded; writer closed before completion; loader emits every row of every batch before "
            "on_completed; DP-6 (batch). pyarrow is trusted.",
